@@ -388,6 +388,15 @@ def run(ck, prog, tier, load):
           "the delimiter-candidate check at the start of the buffer runs for every buffer length (>= %s) at which the scan loop (needs cur + %s <= len) could otherwise step over a look-alike at position 0" % (head_min, scan_k))
     grammar_rules(ck, prog)
 
+    # ---- (g) every header line of a part is delivered: the part's header map is filled with append, never with the
+    # replacing insert (a repeated name keeps all its values, and get() keeps answering with the first) ---------------
+    for hb in prog.find(r"^actix_multipart::multipart::Inner::read_field_headers$"):
+        adds = [(bb, cname(t).split("::")[-1]) for bb, t in hb.calls(r"header::map::HeaderMap::(append|insert|extend)$|HeaderMap as core::iter::traits::collect::(Extend|FromIterator)")]
+        ck.anchor("C15-g", len(adds), 1, "writes to the part's HeaderMap in read_field_headers")
+        bad = [(bb, m) for bb, m in adds if m == "insert"]
+        ck.ob("C15-g.part-headers-all-kept", "read_field_headers", bool(adds) and not bad, hb, (bad or adds or [(None, None)])[0][0],
+              "parsed header lines are added to the part's header map with append (insert would replace the earlier value of a repeated name)")
+
 
 def grammar_rules(ck, prog):
     """(g) exactness of the delimiter line and of the switch to the next field"""
